@@ -631,6 +631,8 @@ class TdmsChannel(object):
         if len(self) > 0 and self._raw_data is None:
             raise RuntimeError("Channel data has not been read")
 
+        if self._raw_data is None:
+            return {}
         return self._raw_data.scaler_data
 
     def data_chunks(self):
@@ -839,6 +841,9 @@ class TdmsChannel(object):
             self.properties, self._group_properties, self._file_properties)
 
     def _read_channel_data_chunks(self):
+        if self.data_type is None:
+            # Channel has no raw data index in any segment so there is nothing to read
+            return
         for chunk in self._reader.read_raw_data_for_channel(self.path):
             _convert_channel_data_chunk(chunk, self._raw_timestamps)
             yield chunk
@@ -853,6 +858,9 @@ class TdmsChannel(object):
             raise ValueError("offset must be non-negative")
         if length is not None and length < 0:
             raise ValueError("length must be non-negative")
+        if self.data_type is None:
+            # Channel has no raw data index in any segment so there is nothing to read
+            return None
         if self._reader.is_index_file_only():
             raise RuntimeError("Data cannot be read from index file only")
 
